@@ -127,6 +127,25 @@ def h_clean(E, cs, st, sa, cl, N):
     return [len(_as_chars(s)), r['ok']]
 
 
+PADDED = ['ab', ' ab', 'ab ', '\tab', 'ab\n', ' a  b ', 'a b', '  ']
+
+
+def h_inferred_expect(E, st, sa, cl, N):
+    """the expected string arrives through the call's expect argument (no configured answers): it is compared after exactly the configured
+    normalisation - in particular its own leading/trailing whitespace survives when strip is off"""
+    from mitxgraders import StringGrader
+    import mitxgraders.stringgrader as SG
+    expect = E.choice('expect', PADDED)
+    s = fresh_str(E, 's', N, alphabet('ab \t'))
+    with shadow(SG, re=rx.ReShim(), str=sym_str):
+        g = StringGrader(strip=st, strip_all=sa, clean_spaces=cl)
+        r = g(expect, s)
+    want = norm(_as_chars(s), True, st, sa, cl)
+    matches = _eq_chars(want, norm(list(expect), True, st, sa, cl))
+    E.check('verdict-iff-identical-after-normalisation', siff(r['ok'] is True, matches))
+    return [len(_as_chars(s)), r['ok']]
+
+
 def _words(chars):
     n, inword = 0, False
     for c in chars:
@@ -317,6 +336,8 @@ def harnesses(tier):
             add(h_accept_any, 'accept', dict(mode=mode, explain=explain, N=4 if T else 3), 'all Unicode strings, symbolic minimums')
         add(h_accept_any, 'accept', dict(mode=mode, explain='msg', N=4 if T else 3, strip_all=True, clean_spaces=False), 'all Unicode strings, symbolic minimums, strip_all')
         add(h_accept_any, 'accept', dict(mode=mode, explain=None, N=3, strip_all=False, clean_spaces=False), 'all Unicode strings, symbolic minimums, clean_spaces off')
+    for st, sa, cl in itertools.product((True, False), repeat=3):
+        add(h_inferred_expect, 'inferred_expect', dict(strip=st, strip_all=sa, clean_spaces=cl, N=4 if T else 3), '8 padded expect values x all strings of length <= 3 (quick) / 4 over {a, b, space, tab}')
     names = sorted(SEQ_GRADERS)
     for a in names:
         for b in names:
